@@ -288,8 +288,12 @@ def gen_cfg(rng, families=FAMILIES, ne=None, width=False, agb=None, cut=True, un
             cfg["restrained_ne"] = rng.random() < 0.6
     if fam == "distance" and rng.random() < 0.5:
         cfg["dist_noise"] = unit * rng.choice([0.5, 1.0, 3.0])
+    if fam == "distance" and cfg["non_emitting"] and rng.random() < 0.3:
+        cfg["dist_noise_ne"] = unit * rng.choice([0.5, 2.0, 6.0])
     if fam == "newsonkrumm":
         cfg["beta"] = rng.choice([None, 1 / 6, 1.0, 5.0]) if unit == 1.0 else None
+        if cfg["non_emitting"] and unit == 1.0 and rng.random() < 0.3:
+            cfg["beta_ne"] = rng.choice([0.5, 2.0, 10.0])
     if width is True:
         cfg["width"] = rng.choice([1, 1, 2, 2, 3, 4])
     elif width == "maybe":
@@ -317,6 +321,38 @@ def gen_sparse_chain_case(rng, labels=("int",)):
         pts.append([p[0] + rng.gauss(0, noise), p[1] + rng.gauss(0, noise)])
     if len(pts) < 2:
         pts.append([c[main[-1]][0], c[main[-1]][1]])
+    return m, pts
+
+
+def gen_out_and_back_case(rng, labels=("int",)):
+    """chain map with one-way feeders; the vehicle is seen ON the nodes, skips one or two (a non-emitting state is needed),
+    then turns around and is seen on a node it skipped: with non-emitting states the predecessor of the far state is a
+    non-emitting state on the way back, which is where a model that looks further back than one step shows."""
+    m = map_chain(rng, rng.randint(4, 9), oneway_p=rng.choice([0.0, 0.0, 0.2]), labels=rng.choice(labels), dyadic=rng.random() < 0.5)
+    c = coords(m)
+    labs = [l for l, _ in sorted(m["nodes"], key=lambda t: _creation_index(t[0]))]
+    main = labs[: m.get("chain_len", len(labs))]
+    k = rng.randint(2, min(4, len(main) - 1))
+    # one-way feeder streets ending in chain nodes; the first starts beside the first observation and ends in the far node,
+    # so that without non-emitting states the far node is reached over it
+    nid = max([l for l in labs if isinstance(l, int)] + [0]) + 1
+    if all(isinstance(l, int) for l in labs):
+        p0 = c[main[0]]
+        off = rng.choice([0.9, -0.9, 0.5, 0.3, 1.2])
+        m["nodes"].append([nid, [p0[0] + off, p0[1]] if abs(c[main[1]][0] - p0[0]) < abs(c[main[1]][1] - p0[1]) else [p0[0], p0[1] + off]])
+        m["edges"].append([nid, main[k]])
+        nid += 1
+        for _ in range(rng.randint(0, 2)):
+            t = rng.choice(main)
+            p = c[t]
+            m["nodes"].append([nid, [p[0] + rng.choice([0.9, -0.9, 0.5]), p[1] - rng.choice([2.0, 4.0, 1.0])]])
+            m["edges"].append([nid, t])
+            nid += 1
+    idx = [0, k] + [j for j in range(k - 1, max(-1, k - 1 - rng.randint(1, 2)), -1)]
+    if rng.random() < 0.4 and k + 2 < len(main):
+        idx.append(k + 2)
+    noise = rng.choice([0.0, 0.0, 0.02])
+    pts = [[c[main[j]][0] + rng.gauss(0, noise), c[main[j]][1] + rng.gauss(0, noise)] for j in idx]
     return m, pts
 
 
